@@ -14,9 +14,12 @@
 //	      InFace}) with the send queue reported above (cong=1) / below the threshold
 //	      => n=<k> <hex of every frame handed to transport.sendFrame>
 //	rx <id> <i>  hand frame <i> of message <id> to the receiver's handleIncomingFrame
-//	      => ps=<partial messages held> [d=<pkthex>/<tokhex|->/<mark|->]   (packets queued to the
-//	         forwarding threads), "skip" when that frame does not exist
-//	end   => ps=<partial messages held>
+//	      => ps=<partial messages held> [d=<pkthex>/<tokhex|->/<mark|->] [st=<fnv64>]  (packets queued
+//	         to the forwarding threads; st = digest of ALL packets delivered so far in this history,
+//	         which the harness retains without copying, rendered again now), "skip" when that frame
+//	         does not exist
+//	end   => ps=<partial messages held> [h=<pkthex>/<tokhex|->/<mark|->]*  every retained packet,
+//	         rendered again at the end of the history
 package c10
 
 import (
@@ -44,12 +47,41 @@ type recThread struct{ id int }
 
 var delivered []string
 
-func record(p *defn.Pkt) {
+// held keeps every packet queued to the forwarding threads during the current history WITHOUT copying
+// it, exactly as a forwarding thread's queue does; the packets are rendered again later (after every
+// further delivery and at the end of the history), so a delivered packet that does not own its
+// bytes is noticed.
+var held []*defn.Pkt
+
+func render(p *defn.Pkt) string {
 	mark := "-"
 	if p.CongestionMark != nil {
 		mark = strconv.FormatUint(*p.CongestionMark, 10)
 	}
-	delivered = append(delivered, "d="+common.Hex(p.Raw)+"/"+common.Hex(p.PitToken)+"/"+mark)
+	return common.Hex(p.Raw) + "/" + common.Hex(p.PitToken) + "/" + mark
+}
+
+func record(p *defn.Pkt) {
+	delivered = append(delivered, "d="+render(p))
+	held = append(held, p)
+}
+
+func fnvText(h uint64, s string) uint64 {
+	for i := 0; i < len(s); i++ {
+		h ^= uint64(s[i])
+		h *= 0x100000001b3
+	}
+	return h
+}
+
+// heldDigest is the FNV-64 of the current renderings of all held packets (each followed by ';').
+func heldDigest() string {
+	h := uint64(0xcbf29ce484222325)
+	for _, p := range held {
+		h = fnvText(h, render(p))
+		h = fnvText(h, ";")
+	}
+	return strconv.FormatUint(h, 16)
 }
 func (r *recThread) String() string            { return "rec" + strconv.Itoa(r.id) }
 func (r *recThread) QueueData(p *defn.Pkt)     { record(p) }
@@ -99,6 +131,7 @@ func exec(op string) string {
 	case "new":
 		setup()
 		w = nil
+		held = nil
 		if len(f) != 8 {
 			return "bad-op"
 		}
@@ -171,12 +204,19 @@ func exec(op string) string {
 		for _, d := range delivered {
 			out += " " + d
 		}
+		if len(delivered) > 0 {
+			out += " st=" + heldDigest() // all packets delivered so far, as they look NOW
+		}
 		return out
 	case "end":
 		if w == nil {
 			return "skip"
 		}
-		return "ps=" + strconv.Itoa(face.VerifPartialMessages(w.rcv))
+		out := "ps=" + strconv.Itoa(face.VerifPartialMessages(w.rcv))
+		for _, p := range held {
+			out += " h=" + render(p) // every delivered packet, as it looks at the end of the history
+		}
+		return out
 	}
 	return "bad-op"
 }
